@@ -35,6 +35,7 @@ type legacyLayout struct {
 	adoptable  int // fallback indexes that can be adopted as they are
 	regenerate int // fallback indexes that need a regenerated response
 	converted  bool
+	bareIndex  bool // index.json as other tools write it: without the optional mediaType
 }
 
 func (l *legacyLayout) blob(alg string, b []byte) string {
@@ -56,6 +57,9 @@ func (l *legacyLayout) finish() {
 		Annotations   map[string]string `json:"annotations,omitempty"`
 	}
 	i := idx{SchemaVersion: 2, MediaType: mtIndex, Manifests: l.index}
+	if l.bareIndex {
+		i.MediaType = ""
+	}
 	if i.Manifests == nil {
 		i.Manifests = []mdesc{} // a valid layout: "manifests" is an array, also when it is empty
 	}
@@ -329,6 +333,10 @@ func genLegacyLayout(t *rapid.T, root, repo string, simpleOnly bool) *legacyLayo
 		l.index = append(l.index, e)
 	}
 	l.blob("sha256", []byte("stray blob"))
+	if rapid.IntRange(0, 3).Draw(t, "indexWithoutMediaType") == 0 {
+		l.bareIndex = true
+		l.desc = append(l.desc, "index.json without mediaType")
+	}
 	l.finish()
 	sort.Strings(l.desc)
 	return l
